@@ -288,9 +288,12 @@ def _prepare_fixture_vars_and_params(
     for value, _ in daglish.iterate(lcf_obj, memoized=False):
       if not daglish.is_unshareable(value):
         if id(value) in fixture_ids and value is not lcf_obj:
-          if id(value) not in fixture_params:
-            fixture_params[id(value)] = []
-          fixture_params[id(value)].append(code_ir.Parameter(name=name))
+          params = fixture_params.setdefault(id(value), [])
+          # A sub-fixture that is reachable through several paths is visited
+          # several times by this (un-memoized) traversal; add each parameter
+          # only once.
+          if all(param.name is not name for param in params):
+            params.append(code_ir.Parameter(name=name))
   return fixture_vars, fixture_params
 
 
